@@ -153,11 +153,12 @@ type c10row struct {
 
 type c10tab struct {
 	cur, saved map[string]c10row
-	pending    map[string][]string // per pk: op kinds since the last save / rebuild
+	pending    map[string][]string // per pk: effective op kinds since the last save / rebuild
+	nops       map[string]int      // per pk: number of accepted calls since the last save / rebuild
 }
 
 func newC10tab() *c10tab {
-	return &c10tab{cur: map[string]c10row{}, saved: map[string]c10row{}, pending: map[string][]string{}}
+	return &c10tab{cur: map[string]c10row{}, saved: map[string]c10row{}, pending: map[string][]string{}, nops: map[string]int{}}
 }
 
 func (t *c10tab) pendingSig(pk string) string {
@@ -272,6 +273,7 @@ func (c10) Execute(t *testing.T, ctx *simrt.Ctx) *simrt.Violation {
 					tb.cur[k] = r
 				}
 				tb.pending = map[string][]string{}
+				tb.nops = map[string]int{}
 			}
 		}
 	}
@@ -399,7 +401,30 @@ func (e *c10env) rowOp(op *simrt.Op) *simrt.Violation {
 		}
 		delete(tb.cur, pk)
 	}
-	tb.pending[pk] = append(tb.pending[pk], kind)
+	// the signature records what the op did to the map, not which call was used:
+	// add (key was absent), upd (key was present), del; repeats are collapsed
+	eff := kind
+	switch kind {
+	case "replace", "update":
+		eff = "upd"
+		if !present {
+			eff = "add"
+			if kind == "update" {
+				eff = "upd-absent"
+			}
+		}
+	case "del":
+		if !present {
+			eff = "del-absent"
+		}
+	}
+	if err != nil {
+		return nil // rejected (as the model expects): no effect
+	}
+	if p := tb.pending[pk]; len(p) == 0 || p[len(p)-1] != eff {
+		tb.pending[pk] = append(tb.pending[pk], eff)
+	}
+	tb.nops[pk]++
 	return nil
 }
 
@@ -407,8 +432,8 @@ func (e *c10env) save() *simrt.Violation {
 	ctx := e.ctx
 	multi := false
 	for _, tb := range []*c10tab{e.L, e.R} {
-		for _, ops := range tb.pending {
-			if len(ops) >= 2 {
+		for _, n := range tb.nops {
+			if n >= 2 {
 				multi = true
 			}
 		}
@@ -445,6 +470,7 @@ func (e *c10env) save() *simrt.Violation {
 			tb.saved[k] = r
 		}
 		tb.pending = map[string][]string{}
+		tb.nops = map[string]int{}
 	}
 	ctx.State(simrt.DigestOf(fmt.Sprint(sortedKeys(e.L.cur), e.L.cur, sortedKeys(e.R.cur), e.R.cur)))
 	return nil
@@ -554,48 +580,6 @@ func (e *c10env) verifyTable(tname string, tbl *table.Table, tb *c10tab, indexes
 			return ctx.Violate("row-wrong", tname+"/"+pend, "%s table after save: GetData(%s) = %v (primary %q), latest row is %v; operations since the previous save: %s", tname, pk, row.Data, row.Primary, want, pend)
 		}
 	}
-	// every index lookup returns exactly the present rows whose field matches
-	q := tbl.GetQuery(e.kvdb)
-	for _, index := range indexes {
-		for _, val := range e.domain(index) {
-			var want []string
-			for _, pk := range sortedKeys(tb.cur) {
-				if e.field(tname, tb.cur[pk], index) == val {
-					want = append(want, pk)
-				}
-			}
-			for _, dir := range []int32{dbm.ListASC, dbm.ListDESC} {
-				rows, err := q.ListIndex(index, []byte(val), nil, 0, dir)
-				if v := e.cmpIndex(tname, tb, index, val, "all", rows, err, want); v != nil {
-					return v
-				}
-			}
-			// paged: one row per request, continuing after the last primary key
-			if len(want) >= 2 {
-				ctx.Probe("index_value_with_several_rows")
-				var got []*table.Row
-				var last []byte
-				for n := 0; n <= len(want)+1; n++ {
-					rows, err := q.ListIndex(index, []byte(val), last, 1, dbm.ListASC)
-					if err != nil || len(rows) == 0 {
-						break
-					}
-					got = append(got, rows...)
-					last = rows[len(rows)-1].Primary
-				}
-				if v := e.cmpIndex(tname, tb, index, val, "paged", got, nil, want); v != nil {
-					return v
-				}
-			}
-		}
-	}
-	// primary listing
-	{
-		rows, err := q.ListIndex("primary", nil, nil, 0, dbm.ListASC)
-		if v := e.cmpIndex(tname, tb, "primary", "", "all", rows, err, sortedKeys(tb.cur)); v != nil {
-			return v
-		}
-	}
 	// stored records: data records == rows; index records == one per row and index, nothing else
 	base := c10Prefix + "-" + map[string]string{"left": c10LName, "right": c10RName}[tname] + "-"
 	data := e.scan(base + "d-")
@@ -639,6 +623,48 @@ func (e *c10env) verifyTable(tname string, tbl *table.Table, tb *c10tab, indexes
 		sort.Strings(missing)
 		pk := wantIdx[missing[0]]
 		return ctx.Violate("index-missing", tname+"/"+tb.pendingSig(pk), "%s table after save: no stored index record for %s (row %v); operations on the key since the previous save: %s", tname, missing[0], tb.cur[pk], tb.pendingSig(pk))
+	}
+	// every index lookup returns exactly the present rows whose field matches
+	q := tbl.GetQuery(e.kvdb)
+	for _, index := range indexes {
+		for _, val := range e.domain(index) {
+			var want []string
+			for _, pk := range sortedKeys(tb.cur) {
+				if e.field(tname, tb.cur[pk], index) == val {
+					want = append(want, pk)
+				}
+			}
+			for _, dir := range []int32{dbm.ListASC, dbm.ListDESC} {
+				rows, err := q.ListIndex(index, []byte(val), nil, 0, dir)
+				if v := e.cmpIndex(tname, tb, index, val, "all", rows, err, want); v != nil {
+					return v
+				}
+			}
+			// paged: one row per request, continuing after the last primary key
+			if len(want) >= 2 {
+				ctx.Probe("index_value_with_several_rows")
+				var got []*table.Row
+				var last []byte
+				for n := 0; n <= len(want)+1; n++ {
+					rows, err := q.ListIndex(index, []byte(val), last, 1, dbm.ListASC)
+					if err != nil || len(rows) == 0 {
+						break
+					}
+					got = append(got, rows...)
+					last = rows[len(rows)-1].Primary
+				}
+				if v := e.cmpIndex(tname, tb, index, val, "paged", got, nil, want); v != nil {
+					return v
+				}
+			}
+		}
+	}
+	// primary listing
+	{
+		rows, err := q.ListIndex("primary", nil, nil, 0, dbm.ListASC)
+		if v := e.cmpIndex(tname, tb, "primary", "", "all", rows, err, sortedKeys(tb.cur)); v != nil {
+			return v
+		}
 	}
 	return nil
 }
@@ -702,10 +728,56 @@ func (e *c10env) verifyJoin() *simrt.Violation {
 	}
 	pendOf := func(pk string) string {
 		s := "left/" + e.L.pendingSig(pk)
-		if l, ok := e.L.cur[pk]; ok {
+		l, ok := e.L.cur[pk]
+		if !ok {
+			l, ok = e.L.saved[pk]
+		}
+		if ok {
 			s += ";right/" + e.R.pendingSig(l.f1)
 		}
 		return s
+	}
+	// stored join index records
+	base := c10Prefix + "-" + c10LName + "#" + c10RName + "-m-"
+	wantIdx := map[string]string{}
+	for pk, j := range want {
+		wantIdx["addr#status|"+string(table.JoinKey([]byte(j.addr), []byte(j.status)))+"|"+pk] = pk
+		wantIdx["#status|"+string(table.JoinKey(nil, []byte(j.status)))+"|"+pk] = pk
+	}
+	seen := map[string]bool{}
+	for _, rec := range e.scan(base) {
+		rest := strings.TrimPrefix(rec.k, base)
+		i := strings.Index(rest, "-")
+		jx := strings.LastIndex(rest, "-")
+		if i < 0 || jx <= i {
+			return ctx.Violate("index-record-malformed", "join", "join index record key %q", rec.k)
+		}
+		index, val, pk := rest[:i], rest[i+1:jx], rest[jx+1:]
+		id := index + "|" + val + "|" + pk
+		if _, ok := wantIdx[id]; !ok {
+			var kv types.KeyValue
+			_ = types.Decode([]byte(val), &kv)
+			kind := "non-matching-row"
+			if _, present := want[pk]; !present {
+				kind = "missing-row"
+			}
+			return ctx.Violate("join-index-stale", kind+"/"+pendOf(pk), "stored join index record %s = (%q, %q) -> %s but the model's joined row is %v; pending: %s", index, kv.Key, kv.Value, pk, want[pk], pendOf(pk))
+		}
+		if !bytes.Equal(rec.v, []byte(pk)) {
+			return ctx.Violate("index-record-malformed", "join/value", "join index record %q points at %q", rec.k, rec.v)
+		}
+		seen[id] = true
+	}
+	var missing []string
+	for id := range wantIdx {
+		if !seen[id] {
+			missing = append(missing, id)
+		}
+	}
+	if len(missing) > 0 {
+		sort.Strings(missing)
+		pk := wantIdx[missing[0]]
+		return ctx.Violate("join-index-missing", pendOf(pk), "no stored join index record %q for row %s %v; pending: %s", missing[0], pk, want[pk], pendOf(pk))
 	}
 	for _, pk := range c10PKs {
 		l, present := e.L.cur[pk]
@@ -785,48 +857,6 @@ func (e *c10env) verifyJoin() *simrt.Violation {
 				}
 			}
 		}
-	}
-	// stored join index records
-	base := c10Prefix + "-" + c10LName + "#" + c10RName + "-m-"
-	wantIdx := map[string]string{}
-	for pk, j := range want {
-		wantIdx["addr#status|"+string(table.JoinKey([]byte(j.addr), []byte(j.status)))+"|"+pk] = pk
-		wantIdx["#status|"+string(table.JoinKey(nil, []byte(j.status)))+"|"+pk] = pk
-	}
-	seen := map[string]bool{}
-	for _, rec := range e.scan(base) {
-		rest := strings.TrimPrefix(rec.k, base)
-		i := strings.Index(rest, "-")
-		jx := strings.LastIndex(rest, "-")
-		if i < 0 || jx <= i {
-			return ctx.Violate("index-record-malformed", "join", "join index record key %q", rec.k)
-		}
-		index, val, pk := rest[:i], rest[i+1:jx], rest[jx+1:]
-		id := index + "|" + val + "|" + pk
-		if _, ok := wantIdx[id]; !ok {
-			var kv types.KeyValue
-			_ = types.Decode([]byte(val), &kv)
-			kind := "non-matching-row"
-			if _, present := want[pk]; !present {
-				kind = "missing-row"
-			}
-			return ctx.Violate("join-index-stale", kind+"/"+pendOf(pk), "stored join index record %s = (%q, %q) -> %s but the model's joined row is %v; pending: %s", index, kv.Key, kv.Value, pk, want[pk], pendOf(pk))
-		}
-		if !bytes.Equal(rec.v, []byte(pk)) {
-			return ctx.Violate("index-record-malformed", "join/value", "join index record %q points at %q", rec.k, rec.v)
-		}
-		seen[id] = true
-	}
-	var missing []string
-	for id := range wantIdx {
-		if !seen[id] {
-			missing = append(missing, id)
-		}
-	}
-	if len(missing) > 0 {
-		sort.Strings(missing)
-		pk := wantIdx[missing[0]]
-		return ctx.Violate("join-index-missing", pendOf(pk), "no stored join index record %q for row %s %v; pending: %s", missing[0], pk, want[pk], pendOf(pk))
 	}
 	return nil
 }
